@@ -14,8 +14,13 @@ for diff in $(ls $D/C*/$G | sort -V); do
   id=$(basename $(dirname $diff)); r=$(basename $diff .diff)
   if ! git -C $W apply --check $diff 2>/dev/null; then echo "REFACTOR $id/$r does-not-apply"; continue; fi
   git -C $W apply $diff
-  if [ $OWN = 1 ]; then props=${id#C}; props=${props%%-*}; else props=$(seq -w 1 20); fi
-  out=$(echo $props | tr ' ' '\n' | xargs -P 5 -I{} sh -c "/verif/bin/sdnsverif -verif /tmp/rf_ev_$$ -repo $W -nomutants -property C{} 2>&1 | grep 'key=' | sed 's/^ */C{}: /'")
+  if [ $OWN = 1 ]; then
+    props=${id#C}; props=${props%%-*}
+    out=$(/verif/bin/sdnsverif -verif /tmp/rf_ev_$$ -repo $W -nomutants -property C$props 2>&1 | grep 'key=' | sed "s/^ */C$props: /")
+  else
+    # one load, the rules of all 20 properties (same rule code as the registered checks; no evidence/controls)
+    out=$(/verif/bin/sdnsverif -repo $W -sweep 2>&1 | grep 'key=\|SWEEP')
+  fi
   git -C $W checkout -- . ; git -C $W clean -fdq
   if [ -z "$out" ]; then echo "REFACTOR $id/$r silent"; else echo "REFACTOR $id/$r ALARM"; echo "$out" | sort | uniq | head -12; fi
 done
